@@ -57,11 +57,14 @@ def callEntry (apply : Apply) (e : Entry) (args : List Val) : Except Err Val :=
     else .error (.py .typeError)                   -- `f(*args)` cannot bind
 
 /-- the `try: … except TypeError: raise QueryInterpretException` of `QFunction.interpret` -/
-def callBuiltin (apply : Apply) (e : Entry) (args : List Val) : Except Err Val :=
-  match callEntry apply e args with
+def catchTypeError (r : Except Err Val) : Except Err Val :=
+  match r with
   | .error (.py .typeError) =>
     .error (.interp "Tried to call function with invalid amount of arguments")
   | r => r
+
+def callBuiltin (apply : Apply) (e : Entry) (args : List Val) : Except Err Val :=
+  catchTypeError (callEntry apply e args)
 
 mutual
 /-- `token.interpret(datastore, namespace)`; the namespace is threaded because
